@@ -2325,7 +2325,12 @@ M("s14-quiet-width-by-helper-match", "C05", "quiet", "src/check.rs",
         };""", "behaviour-preserving: the width test written as a match")
 REVERT("revert-struct-pattern-alignment", "C17", "fire T14", "ccbd2fe", "pre-fix tree: struct pattern fields taken positionally in the exhaustiveness check")
 REVERT("revert-struct-pattern-alignment-c01", "C01", "fire V16", "ccbd2fe", "pre-fix tree: non-exhaustive struct matches accepted, evaluate to 0")
-REVERT("revert-number-pattern-range", "C17", "fire T15", "4f8bd5a", "pre-fix tree: `256` accepted as a pattern for a u8")
+M2("revert-number-pattern-range", "C17", "fire T15", [
+  ("src/check.rs", """                    expect_pattern_in_range(ty, *n as i128, *n as i128, meta)?;
+                    PatternEnum::NumUnsigned(*n, *suffix)""", """                    PatternEnum::NumUnsigned(*n, *suffix)"""),
+  ("src/check.rs", """                    expect_pattern_in_range(ty, *n as i128, *n as i128, meta)?;
+                    PatternEnum::NumSigned(*n, *suffix)""", """                    PatternEnum::NumSigned(*n, *suffix)"""),
+  ], "pre-fix form of 4f8bd5a (number patterns): `256` accepted as a pattern for a u8")
 M("t15-range-upper-bound-unchecked", "C17", "fire T15", "src/check.rs",
   """                    expect_pattern_in_range(ty, *from as i128, *to as i128, meta)?;
                     PatternEnum::UnsignedInclusiveRange(*from, *to, *suffix)""",
